@@ -66,7 +66,8 @@ theorem C03_loop (G : Tables) (hT : tablesSafe G = true) : ∀ (fuel : Nat) (τ 
     ((Spec.insts G fuel τ ws).2 ≠ [] →
       ∃ e dF w0 t, (parseLoop G (fun _ => .continue_) fuel τ k idx d tr).result = .err (.inst e) ∧ e ≠ .complete ∧
         (Spec.insts G fuel τ ws).2 = w0 :: t ∧ SView B dF (w0 :: t) ∧
-        ErrAt dF.offset (dF.offset + 4 * (w0 / 65536)) (idx + (Spec.insts G fuel τ ws).1.length + 1) e)
+        ErrAt dF.offset (dF.offset + 4 * (w0 / 65536)) (idx + (Spec.insts G fuel τ ws).1.length + 1) e ∧
+        ∃ τF d1, parseInst G τF (idx + (Spec.insts G fuel τ ws).1.length + 1) dF = (.err e, d1))
   | 0, _, _, _, _, _, _, _, h => absurd h (Nat.not_lt_zero _)
   | fuel + 1, τ, k, idx, d, tr, ws, hv, hf => by
     have hc : coreKindsOk G = true := by
@@ -105,9 +106,10 @@ theorem C03_loop (G : Tables) (hT : tablesSafe G = true) : ∀ (fuel : Nat) (τ 
                 r.trace = tr.reverse ++ List.map Ev.inst ([] : List Inst) ++ (if (w0 :: t) = [] then [Ev.fin] else []) ∧
                 (r.result = .ok () ↔ (w0 :: t) = []) ∧
                 ((w0 :: t) ≠ [] → ∃ e' dF w0' t', r.result = .err (.inst e') ∧ e' ≠ .complete ∧ (w0 :: t) = w0' :: t' ∧
-                  SView B dF (w0' :: t') ∧ ErrAt dF.offset (dF.offset + 4 * (w0' / 65536)) (idx + ([] : List Inst).length + 1) e') := by
+                  SView B dF (w0' :: t') ∧ ErrAt dF.offset (dF.offset + 4 * (w0' / 65536)) (idx + ([] : List Inst).length + 1) e' ∧
+                  ∃ τF d1', parseInst G τF (idx + ([] : List Inst).length + 1) dF = (.err e', d1')) := by
               intro r h1 h2
-              refine ⟨by simp [h2], by simp [h1], fun _ => ⟨e, d, w0, t, h1, hne, rfl, hv, by simpa using hat⟩⟩
+              refine ⟨by simp [h2], by simp [h1], fun _ => ⟨e, d, w0, t, h1, hne, rfl, hv, by simpa using hat, τ, d1, by simpa using hr⟩⟩
             cases e with
             | complete => exact absurd rfl hne
             | wordCountZero _ _ => exact fin _ rfl rfl
@@ -133,11 +135,13 @@ theorem C03_loop (G : Tables) (hT : tablesSafe G = true) : ∀ (fuel : Nat) (τ 
           refine ⟨?_, h2, ?_⟩
           · rw [h1]; simp
           · intro hne
-            obtain ⟨e, dF, w0', t', r1, r2, r3, r4, r5⟩ := h3 hne
-            refine ⟨e, dF, w0', t', r1, r2, r3, r4, ?_⟩
-            simp only [List.length_cons]
+            obtain ⟨e, dF, w0', t', r1, r2, r3, r4, r5, τF, dF1, r6⟩ := h3 hne
             have : idx + 1 + (Spec.insts G fuel τ1 rest).1.length + 1 = idx + ((Spec.insts G fuel τ1 rest).1.length + 1) + 1 := by omega
-            rw [← this]; exact r5
+            refine ⟨e, dF, w0', t', r1, r2, r3, r4, ?_, τF, dF1, ?_⟩
+            · simp only [List.length_cons]
+              rw [← this]; exact r5
+            · simp only [List.length_cons]
+              rw [← this]; exact r6
 
 /-- the state after a complete header, seen as a stream of instruction words -/
 theorem header_sview (bytes : List Nat) (hb : ∀ b ∈ bytes, b < 256) (hs : bytes.length < 2 ^ 63) (h20 : 20 ≤ bytes.length) :
@@ -201,14 +205,15 @@ theorem C03_reject (G : Tables) (hT : tablesSafe G = true) (bytes : List Nat) (h
     ∃ e dF w0 t, (parse G (fun _ => .continue_) bytes).result = .err (.inst e) ∧ e ≠ .complete ∧
       (Spec.insts G (bytes.length + 1) [] (Spec.streamWords bytes)).2 = w0 :: t ∧ SView bytes dF (w0 :: t) ∧
       ErrAt dF.offset (dF.offset + 4 * (w0 / 65536))
-        ((Spec.insts G (bytes.length + 1) [] (Spec.streamWords bytes)).1.length + 1) e := by
+        ((Spec.insts G (bytes.length + 1) [] (Spec.streamWords bytes)).1.length + 1) e ∧
+      ∃ τF dF1, parseInst G τF ((Spec.insts G (bytes.length + 1) [] (Spec.streamWords bytes)).1.length + 1) dF = (.err e, dF1) := by
   obtain ⟨ws, d1, hw, hv, hws⟩ := header_sview bytes hb hs h20
   have hlenw : (Spec.streamWords bytes).length < bytes.length + 1 := by
     simp only [Spec.streamWords, List.length_map, List.length_range]; omega
   let hd : Header := ⟨G.magic, (ws.getD 1 0 / 65536 % 256) * 65536 + (ws.getD 1 0 / 256 % 256) * 256, 0x000f0000, ws.getD 3 0, 0⟩
   obtain ⟨_, _, h3⟩ := C03_loop G hT (bytes.length + 1) [] 2 0 d1 [.header hd, .init] _ hv hlenw
-  obtain ⟨e, dF, w0, t, r1, r2, r3, r4, r5⟩ := h3 hrest
-  refine ⟨e, dF, w0, t, ?_, r2, r3, r4, by simpa using r5⟩
+  obtain ⟨e, dF, w0, t, r1, r2, r3, r4, r5, τF, dF1, r6⟩ := h3 hrest
+  refine ⟨e, dF, w0, t, ?_, r2, r3, r4, by simpa using r5, τF, dF1, by simpa using r6⟩
   have hm : (ws.getD 0 0 != G.magic) = false := by
     rw [hws]; simp [hmagic]
   unfold parse
